@@ -315,7 +315,10 @@ def exec_for(I, node, fr):
         I.exec_block(node.orelse, fr)
         return
     if lc is None:
-        raise Unsupported("for loop %s in %s over a symbolic sequence needs an invariant" % (label, fr.finfo.qualname))
+        # a loop the contracts do not know (added by a change): cut with the weakest invariant; recorded, so that a
+        # failed proof without a reproduced input is reported as undecided rather than as a violation
+        I.E.auto_fields.add("loop without a contract: %s %s" % (fr.finfo.qualname, label))
+        lc = {"inv": []}
     lc = dict(lc)
     lc["_label"] = label
     # ---- symbolic iteration: index-based desugaring
@@ -364,7 +367,8 @@ def concrete_items(I, it):
             raise Unsupported("symbolic range")
         if o.kind == "enumerate":
             inner = concrete_items(I, o.data)
-            return [VTuple([VInt(i), x]) for i, x in enumerate(inner)]
+            st0 = o.fields.get("start", VInt(0))
+            return [VTuple([VInt(simp(zint(st0.t) + i)) if not is_conc(st0.t) else VInt(st0.t + i), x]) for i, x in enumerate(inner)]
         if o.kind == "items":
             d = st.heap[o.data.ref].data
             if st.heap[o.data.ref].kind == "adict":
@@ -409,7 +413,8 @@ def symbolic_iter(I, it, fr):
             raise Unsupported("range with symbolic/negative step")
         if o.kind == "enumerate":
             inner_at, n = symbolic_iter(I, o.data, fr)
-            return (lambda i: VTuple([VInt(i), inner_at(i)])), n
+            st0 = zint(o.fields.get("start", VInt(0)).t)
+            return (lambda i: VTuple([VInt(simp(st0 + zint(i))), inner_at(i)])), n
     if isinstance(it, VOpaque) and it.tag in getattr(I.E, "opaque_iter", {}):
         # abstract finite sequence (e.g. what a generator will produce): length and elements are uninterpreted
         elem_tag = I.E.opaque_iter[it.tag]
@@ -418,5 +423,8 @@ def symbolic_iter(I, it, fr):
         felem = z3.Function("uf_elem_" + it.tag, smt.Int, smt.Int, smt.Int)
         n = flen(ident)
         st.assume(n >= 0)
+        if elem_tag == "str":
+            fs = z3.Function("uf_selem_" + it.tag, smt.Int, smt.Int, smt.Seq)
+            return (lambda i: VSeq([Seg("A", fs(ident, zint(i)), smt.slen(fs(ident, zint(i))))], "str")), n
         return (lambda i: VOpaque(elem_tag, felem(ident, zint(i)))), n
     raise Unsupported("symbolic iteration over %s" % I.type_name(it))
